@@ -71,6 +71,12 @@ func (c Case) geometry() orb.Geometry {
 
 type tkey struct{ x, y int64 }
 
+// tileOf builds a tile value directly (not through maptile.New: the oracle
+// calls no function or method of orb; see the audit note at the end of this file).
+func tileOf[Z uint32 | maptile.Zoom](x, y uint32, z Z) maptile.Tile {
+	return maptile.Tile{X: x, Y: y, Z: maptile.Zoom(z)}
+}
+
 func worldN(z uint32) float64 { return math.Ldexp(1, int(z)) }
 
 // project is the harness's own spherical-mercator formula (asinh/tan form, not
@@ -634,7 +640,7 @@ func (m *model) verify(cover map[maptile.Tile]bool) error {
 		if k.x < 0 || k.y < 0 || uint64(k.x) >= n || uint64(k.y) >= n {
 			return fmt.Errorf("harness: required tile (%d,%d) outside the world at zoom %d", k.x, k.y, m.z)
 		}
-		if !cover[maptile.New(uint32(k.x), uint32(k.y), maptile.Zoom(m.z))] {
+		if !cover[tileOf(uint32(k.x), uint32(k.y), maptile.Zoom(m.z))] {
 			return fmt.Errorf("missing tile (%d,%d,z%d): %s", k.x, k.y, m.z, m.req[k])
 		}
 	}
@@ -644,7 +650,7 @@ func (m *model) verify(cover map[maptile.Tile]bool) error {
 		found := false
 		for _, tx := range []float64{math.Floor(v[0] - eps), math.Floor(v[0] + eps)} {
 			for _, ty := range []float64{math.Floor(v[1] - eps), math.Floor(v[1] + eps)} {
-				if tx >= 0 && ty >= 0 && tx < float64(n) && ty < float64(n) && cover[maptile.New(uint32(tx), uint32(ty), maptile.Zoom(m.z))] {
+				if tx >= 0 && ty >= 0 && tx < float64(n) && ty < float64(n) && cover[tileOf(uint32(tx), uint32(ty), maptile.Zoom(m.z))] {
 					found = true
 				}
 			}
@@ -822,7 +828,8 @@ func evalCover(c Case) (info, error) {
 	if isMulti(g) {
 		union := map[maptile.Tile]bool{}
 		allOK := true
-		for _, p := range parts(g) {
+		origParts := parts(orig)
+		for pi, p := range parts(g) {
 			ps, perr := tilecover.Geometry(p, z)
 			if perr != nil {
 				allOK = false
@@ -830,6 +837,14 @@ func evalCover(c Case) (info, error) {
 					return inf, fmt.Errorf("member %s: error %v", gen.KindOf(p), perr)
 				}
 				break
+			}
+			// the member's cover is judged by its own model (built from the
+			// independent copy), so that "union of the members' covers" is not an
+			// expectation borrowed from the library
+			pm := newModel(c.Z)
+			pm.addGeom(origParts[pi])
+			if verr := pm.verify(members(ps)); verr != nil {
+				return inf, fmt.Errorf("member %d (%s) of the %s: %v", pi, gen.KindOf(p), gen.KindOf(g), verr)
 			}
 			for t, v := range ps {
 				if v {
@@ -890,7 +905,7 @@ func evalMerge(c Case) (info, error) {
 		}
 		if !seen[t] {
 			seen[t] = true
-			tiles = append(tiles, maptile.New(t[0], t[1], maptile.Zoom(c.Z)))
+			tiles = append(tiles, tileOf(t[0], t[1], maptile.Zoom(c.Z)))
 		}
 	}
 	inf.inDomain = true
@@ -912,9 +927,9 @@ func scribble(s maptile.Set, z uint32) {
 		}
 		i++
 	}
-	s[maptile.New(0, 0, maptile.Zoom(z))] = true
-	s[maptile.New(1, 1, maptile.Zoom(z+1))] = true
-	s[maptile.New(1<<31, 7, 3)] = true
+	s[tileOf(0, 0, maptile.Zoom(z))] = true
+	s[tileOf(1, 1, maptile.Zoom(z+1))] = true
+	s[tileOf(1<<31, 7, uint32(3))] = true
 	s[maptile.Tile{}] = false
 }
 
@@ -935,7 +950,7 @@ func checkMerge(in []maptile.Tile, Z, target uint32) (mustMerge bool, err error)
 	if Z > target {
 		for _, t := range in {
 			if t.X%2 == 0 && t.Y%2 == 0 &&
-				inSet[maptile.New(t.X+1, t.Y, t.Z)] && inSet[maptile.New(t.X, t.Y+1, t.Z)] && inSet[maptile.New(t.X+1, t.Y+1, t.Z)] {
+				inSet[tileOf(t.X+1, t.Y, t.Z)] && inSet[tileOf(t.X, t.Y+1, t.Z)] && inSet[tileOf(t.X+1, t.Y+1, t.Z)] {
 				mustMerge = true
 				break
 			}
@@ -995,7 +1010,7 @@ func otherSet(in []maptile.Tile, Z uint32) []maptile.Tile {
 	seen := map[maptile.Tile]bool{}
 	var out []maptile.Tile
 	add := func(x, y uint32) {
-		t := maptile.New(x%n, y%n, maptile.Zoom(Z))
+		t := tileOf(x%n, y%n, maptile.Zoom(Z))
 		if !seen[t] {
 			seen[t] = true
 			out = append(out, t)
@@ -1046,7 +1061,7 @@ func verifyMerge(in maptile.Set, out map[maptile.Tile]bool, Z, target uint32) er
 		var first maptile.Tile
 		for zz := Z; ; zz-- {
 			sh := Z - zz
-			anc := maptile.New(s.X>>sh, s.Y>>sh, maptile.Zoom(zz))
+			anc := tileOf(s.X>>sh, s.Y>>sh, maptile.Zoom(zz))
 			if out[anc] {
 				if cnt == 0 {
 					first = anc
@@ -1073,7 +1088,7 @@ func verifyMerge(in maptile.Set, out map[maptile.Tile]bool, Z, target uint32) er
 			continue
 		}
 		bx, by := t.X&^1, t.Y&^1
-		if out[maptile.New(bx, by, t.Z)] && out[maptile.New(bx+1, by, t.Z)] && out[maptile.New(bx, by+1, t.Z)] && out[maptile.New(bx+1, by+1, t.Z)] {
+		if out[tileOf(bx, by, t.Z)] && out[tileOf(bx+1, by, t.Z)] && out[tileOf(bx, by+1, t.Z)] && out[tileOf(bx+1, by+1, t.Z)] {
 			return fmt.Errorf("complete sibling quad of %v left unmerged above the requested zoom %d", t, target)
 		}
 	}
@@ -1107,3 +1122,15 @@ func TestReplay(t *testing.T) {
 		t.Fatalf("replayed case still fails: %v", err)
 	}
 }
+
+// Audit of library calls on the oracle side (round I). The model, the
+// expectation builders, the classifiers and the tolerances call NO function or
+// method of paulmach/orb: projection (project/unproject), tile arithmetic
+// (tileOf, shifts and masks for parents/siblings/validity), ring closedness and
+// simplicity (simpleClosed: == on coordinate arrays, own orientation test),
+// bound validity (validBound), set membership (members/sameSet), deep copy and
+// bit comparison (internal/gen) are the harness's own. orb is called only as
+// the operation under test (tilecover.*), and by two generator helpers whose
+// output is an INPUT judged by the model: snapLat (maptile.Fraction, to find
+// latitudes that orb itself maps onto exact tile rows) - no expectation is
+// derived from it.
